@@ -19,7 +19,10 @@ Relational oracle, straight from the property text:
                   short form); every other case is under C13.history.judged_by_validating_schema /
                   .forms_follow_validating_schema / .own_validate_uses_parsing_schema
 Annotations are generated per member schema from its own vocabulary (standard tags, library tags, value tags with and
-without units, extensions, long forms, invalid and structural cases).
+without units, extensions, long forms, invalid and structural cases, non-ASCII values and extensions).  The groups include
+all-prefixed ones (no unprefixed member) for every offline pairing.  One narrow clause (defect of the unchanged tree, labelled
+by a predicate on the input): C13.group.mixed_generation_character_rules - non-ASCII text in a group whose members straddle
+standard generation 8.3.0 (the validator takes ONE character-rule set for the whole group).
 """
 import os
 import re
@@ -46,8 +49,20 @@ GROUPS = [
     (["x:8.3.0", "y:8.3.0"], {"x:": "8.3.0", "y:": "8.3.0"}),
     (["8.3.0", "Sc:score_2.0.0"], {"": "8.3.0", "Sc:": "score_2.0.0"}),       # prefix with a capital letter
     (["8.0.0", "SC:score_1.0.0"], {"": "8.0.0", "SC:": "score_1.0.0"}),
+    # all-prefixed groups (no unprefixed member) over the offline pairings, both orders of the list
+    (["sc:score_2.0.0", "st:8.3.0"], {"sc:": "score_2.0.0", "st:": "8.3.0"}),                      # 17
+    (["st:8.3.0", "sc:score_2.0.0"], {"st:": "8.3.0", "sc:": "score_2.0.0"}),                      # 18
+    (["sc:score_1.1.0", "st:8.2.0"], {"sc:": "score_1.1.0", "st:": "8.2.0"}),                      # 19
+    (["st:8.2.0", "tl:testlib_3.0.0"], {"st:": "8.2.0", "tl:": "testlib_3.0.0"}),                  # 20
+    (["tl:testlib_2.0.0", "st:8.2.0"], {"tl:": "testlib_2.0.0", "st:": "8.2.0"}),                  # 21
+    (["tl:testlib_2.1.0", "st:8.3.0"], {"tl:": "testlib_2.1.0", "st:": "8.3.0"}),                  # 22 (generations differ)
+    (["st:8.3.0"], {"st:": "8.3.0"}),                                                              # 23
+    (["sc:score_2.0.0", "tl:testlib_2.0.0", "st:8.3.0"], {"sc:": "score_2.0.0", "tl:": "testlib_2.0.0", "st:": "8.3.0"}),   # 24
+    (["sc:score_1.0.0", "st:8.0.0"], {"sc:": "score_1.0.0", "st:": "8.0.0"}),                      # 25
+    (["st:8.1.0", "tl:testlib_1.0.2"], {"st:": "8.1.0", "tl:": "testlib_1.0.2"}),                  # 26
+    (["ts:score_1.1.0", "ts:testlib_2.0.0", "st:8.2.0"], {"st:": "8.2.0", "ts:": ["score_1.1.0", "testlib_2.0.0"]}),        # 27
 ]
-QUICK_GROUPS = [0, 2, 3, 4, 6, 8, 9, 11, 12, 15]
+QUICK_GROUPS = [0, 2, 3, 4, 6, 8, 9, 11, 12, 15, 17, 18, 19, 22, 23]
 QUICK_HISTORY = [2, 3, 4, 5, 8, 12]
 
 PARTNERS = [("score_1.1.0", "8.2.0"), ("score_2.0.0", "8.3.0"), ("testlib_2.0.0", "8.2.0"), ("testlib_2.1.0", "8.2.0"),
@@ -159,6 +174,20 @@ def annotations(w, alone, n_tags):
             "(Def-expand/Abc, (%s))" % a, "Label/a$b", "Label/abc, Label/abc", "%s,, %s" % (a, b), "(%s" % a,
             "(%s, ())" % a, "Event, Sensory-event, Agent-action", "(Red, Blue), (Blue, Red)", "Age/12", "Age/12 years",
             "Weight/3 kg, Weight/3 KG", "Item/Object, Object", "Property/Red", "Sensory-event/Red", "#", "Label/#"]
+    # printable non-ASCII text in values and extensions (accepted from standard generation 8.3.0 on, rejected before), and
+    # non-printable non-ASCII characters (rejected by every generation)
+    for k, e in enumerate(pick):
+        s = e.short_tag_name
+        word = ["caf\u00e9", "\u00dcn\u00ef", "\u65e5\u672c", "\u03a9mega", "na\u00efve", "\u00c5ngstr\u00f6m"][k % 6]
+        if e.takes_value_child_entry is not None:
+            out.append("%s/%s" % (s, word))
+        else:
+            out.append("%s/Ext%s" % (s, word))
+            if k % 4 == 0:
+                out.append("%s/%s/Deeper" % (s, word.capitalize()))
+    out += ["Label/caf\u00e9", "Red, Description/\u00dcn\u00ef c\u00f6d\u00e9 text", "Label/\u65e5\u672c", "(Label/na\u00efve, (Label/\u03a9mega, %s))" % a,
+            "ID/\u00e91", "Label/a\u2028b", "Label/x\u00a0y", "Description/Pi \u03c0 is 3.14, %s" % b, "%s, Label/caf\u00e9, Label/caf\u00e9" % a,
+            "Label/\U0001F600", "(Definition/D\u00e9f, (%s))" % a, "Def/D\u00e9f", "Age/12 ye\u00e4rs", "Label/caf\u00e9 #"]
     digit_first = sorted(e.short_tag_name for e in entries if e.short_tag_name[:1].isdigit())[:3]
     out += digit_first + ["red", "item/object", "(red, Blue)", "RED"]
     seen, res = set(), []
@@ -167,6 +196,27 @@ def annotations(w, alone, n_tags):
             seen.add(t)
             res.append(t)
     return res
+
+
+CL_MIXED_GEN = "C13.group.mixed_generation_character_rules"     # narrow: see mixed_generation()
+
+
+def _is_83_generation(version):
+    """the standard generation a schema belongs to, read from its XML header (never from the schema object): the partner
+    named by withStandard, else the schema's own version when it is a standard schema; stand-alone libraries: none"""
+    root = ET.parse(_xml_path(version)).getroot()
+    std = root.attrib.get("withStandard") or (root.attrib.get("version") if not root.attrib.get("library") else None)
+    return std is not None and tuple(int(x) for x in std.split(".")[:3]) >= (8, 3, 0)
+
+
+def mixed_generation(members):
+    """label only (a model of the defect region on the INPUT): the members of the group do not all belong to the same side of
+    standard generation 8.3.0, where the character rules changed"""
+    gens = set()
+    for alone_spec in members.values():
+        for v in (alone_spec if isinstance(alone_spec, list) else [alone_spec]):
+            gens.add(_is_83_generation(v))
+    return len(gens) > 1
 
 
 def _without_style(verdict):
@@ -184,6 +234,7 @@ def run_group(w, gi, n_tags, count=True, only=None):
         return 0
     n = 0
     loaded_ns = set(members)
+    mixed = mixed_generation(members)
     for ns, alone_spec in members.items():
         alone = load(alone_spec)
         texts = annotations(w, alone, n_tags) if only is None else [only]
@@ -197,6 +248,9 @@ def run_group(w, gi, n_tags, count=True, only=None):
                 w.case(key=(gi, ns, A), nontrivial=True,
                        sample={"group": spec, "annotation": PA, "codes": got if isinstance(got, str) else [g[0] for g in got]})
             clause = "C13.prefixed.judged_as_alone" if ns else "C13.unprefixed.judged_as_alone"
+            if mixed and any(ord(ch) > 127 for ch in A):
+                # narrow label: non-ASCII text in a group whose members straddle generation 8.3.0 (one rule set for the whole group)
+                clause = CL_MIXED_GEN
             if ns and got != exp and _without_style(got) == _without_style(exp):
                 # narrow label: the only difference is the capitalisation warning (the rule reads the prefix as part of the name)
                 clause = "C13.prefixed.capitalisation_warning_reads_prefix"
@@ -593,7 +647,7 @@ def run(w: Workload):
     w.rule = ("for each offline schema group (standard, library, prefixed and unprefixed members, merged libraries under one "
               "prefix) and each member namespace p: annotations generated from that member's own vocabulary (seeded sample of "
               "standard and library tags: short/long form, value with/without/bad units, extensions; group shapes, duplicates, "
-              "structural and reserved-tag cases) are validated prefixed-with-p against the group and unprefixed against the "
+              "structural and reserved-tag cases; printable and non-printable non-ASCII text in values and extensions) are validated prefixed-with-p against the group and unprefixed against the "
               "member loaded alone; every 5th annotation is also tried under unloaded and non-alphabetic prefixes; plus the "
               "partnered-vocabulary comparison over every standard entry and the refusal table")
     n_tags = 25 if w.quick else 120
